@@ -860,6 +860,41 @@ theorem client_auth_table_shared (ops : List (COp LCfg)) (name : Name) (cs : Lis
   | none => rfl
   | some s => simp [authOf, client_auth_table]
 
+/-- **client_auth_table_every_kind**: `client_auth_table` / `require_and_verify_iff` for EVERY kind of context — static with
+ca_cert, static without (host root store), sds with a validation secret, sds WITHOUT a validation secret (host root store)
+— ready or pending: a built context's ClientAuthType is the statement's table on ITS verify_client / require_client_cert
+and nothing else (RequireAndVerifyClientCert iff both are set; a pending context has none and is never selected).
+Regenerated: the fields GetClientAuth reads are exactly the two flags, and every context's tls.Config.ClientAuth is set,
+unconditionally, from GetClientAuth of its own configuration. -/
+theorem client_auth_table_every_kind (k : CtxKind) (req ver : Bool) :
+    getClientAuthReads = ["RequireClientCert", "VerifyClient"] ∧ clientAuthFromHookForEveryContext = true ∧
+    ctxClientAuth k true req ver = some (specClientAuth req ver) ∧
+    (ctxClientAuth k true req ver = some RequireAndVerifyClientCert ↔ (req = true ∧ ver = true)) ∧
+    ctxClientAuth k false req ver = none := by
+  refine ⟨by decide, by decide, ?_, ?_, rfl⟩
+  · simp [ctxClientAuth, client_auth_table]
+  · simp only [ctxClientAuth, ↓reduceIte, Option.some.injEq]
+    exact require_and_verify_iff req ver
+
+/-- **server_trust_every_kind**: hence the server-side handshake result of every kind of context is the statement's trust
+table on its flags and the peer's class relative to ITS trust anchor (the configured CA, or the host's root store for a
+context without ca_cert / validation secret — `unconfigured_uses_host_store`): with verify_client and require_client_cert
+only a peer proving possession of a certificate of that anchor gets through, whatever the kind. -/
+theorem server_trust_every_kind (k : CtxKind) (req ver : Bool) (p : Peer) :
+    (ctxClientAuth k true req ver).map (fun a => serverAccepts a p) = some (specServerAccepts req ver p) ∧
+    ((ctxClientAuth k true true true).map (fun a => serverAccepts a p) = some true ↔ p = Peer.rightCA) := by
+  refine ⟨by simp [ctxClientAuth, server_trust_table], ?_⟩
+  simp only [ctxClientAuth, ↓reduceIte, Option.map_some, Option.some.injEq]
+  exact mutual_tls p
+
+example : CtxKind.all.map (fun k => ctxClientAuth k true true true) = [some 4, some 4, some 4, some 4] ∧
+    ctxClientAuth .sdsWithoutValidation true false true = some 3 ∧ ctxClientAuth .sdsWithoutValidation false true true = none := by decide
+-- NEGATION WITNESS (the seeded class): verify_client read as false for an sds context without validation secret turns
+-- verify+require into RequestClientCert and lets a peer without trusted certificate through
+example : getClientAuth true false = RequestClientCert ∧ serverAccepts (getClientAuth true false) .selfSigned = true ∧
+    specServerAccepts true true .selfSigned = false ∧ serverAccepts (getClientAuth false false) .none = true ∧
+    specServerAccepts false true .otherCA = false := by decide
+
 def shA : SCtx LCfg := ⟨⟨true, true, "a.com".toList, []⟩, ⟨"rootca".toList, "default".toList⟩⟩
 def shB : SCtx LCfg := ⟨⟨false, false, "b.org".toList, "h2".toList⟩, ⟨"rootca".toList, "default".toList⟩⟩
 def shNames : Name → Nat → Name × List Name := fun c _ => (c, [c])
